@@ -40,6 +40,16 @@ OWN = [
     ["name l2", "version 1.0", "", "int k = %(m)s", "Vac | [k, k+%(i)s+100]", "Gate(vals=[%(i)s, 2*%(i)s, %(f)s/2], names=[\"x\", \"y z\"], flags=[True, False]) | k"],
     ["name l3", "version 1.0", "target X8 (shots=%(i)s, vals=[%(i)s, %(f)s], label=\"abc\", on=True)", "type tdm2 (copies=%(i)s*2)", "", "Vac | %(m)s"],
     ["name v1", "version 1.0", "", "complex z = %(c)s", "float y = -%(f)s", "int n = -%(i)s", "Gate(z, y, n, k=z*2) | %(m)s", "str s = \"hello\"", "bool b = False", "Gate(s, b) | %(m)s"],
+    # several arrays in one program whose values may coincide while shape / element type differ
+    ["name a4", "version 1.0", "", "float array A =", "    %(f)s, %(f)s", "    %(f)s, %(f)s", "float array B =", "    %(f)s, %(f)s, %(f)s, %(f)s", "Gate(A) | %(m)s", "Reweight(B, k=A) | %(m)s"],
+    ["name a5", "version 1.0", "", "int array A =", "    %(i)s, %(i)s", "float array B =", "    %(f)s, %(f)s", "complex array C =", "    %(c)s, %(c)s", "Gate(A, B, C) | %(m)s", "Gate(C, A) | %(m)s"],
+    # expressions whose SymPy printing needs care (unary minus vs power, inverse functions, reciprocal)
+    ["name x1", "version 1.0", "", "Rgate(-({a}**2), ({a}+1)**2) | %(m)s"],
+    ["name x2", "version 1.0", "", "Rgate(arcsin({a})+arctanh({b}), k=arccos({a})) | %(m)s"],
+    ["name x3", "version 1.0", "", "MeasureX | 0", "Zgate(-(q0**2), 1/q0) | %(m)s", "Zgate(arctan(q0)) | %(m)s"],
+    ["name x4", "version 1.0", "", "Rgate(1/{a}, -1/({a}*{b}), ({a}-{b})/({a}+{b})) | %(m)s"],
+    ["name x6", "version 1.0", "", "Rgate(-({a}**2)-{b}**2*3, (-({a}**3)+1)*{b}, -(({a}+{b})**2)) | %(m)s", "MeasureX | 0", "Zgate(-(q0**2)-q1**2) | %(m)s"],
+    ["name x5", "version 1.0", "", "Rgate({a}**-1, {a}**0.5, 2**{a}) | %(m)s"],
     # tdm
     ["name d1", "version 1.0", "type tdm (temporal_modes=%(i)s, copies=%(i)s)", "", "int array p0 =", "    %(i)s, %(i)s, %(i)s", "float array p1 =", "    %(f)s, %(f)s, %(f)s",
      "BSgate(p0, %(f)s) | [%(m)s, %(m)s]", "Rgate(p1) | %(m)s", "MeasureHomodyne(phi=p0) | %(m)s"],
